@@ -235,6 +235,20 @@ def merge_states(states):
     return out
 
 
+def merge_outcomes(outs):
+    """[(state, ret)] of one function -> (merged state, merged return value)"""
+    if len(outs) == 1:
+        return outs[0]
+    sts = []
+    for s_, r_ in outs:
+        s2 = s_.clone()
+        if r_ is not None and not isinstance(r_, Ptr):
+            s2.vars["__ret"] = r_
+        sts.append(s2)
+    m = merge_states(sts)
+    return m, m.vars.pop("__ret", None)
+
+
 class ArrayView:
     """Contract-side view of a block through a pointer: logical multi-index access."""
 
@@ -702,6 +716,9 @@ class CExec:
         if not isinstance(callee, FnRef):
             raise CheckerError("indirect call through unknown pointer at %s" % self.cur_file.src(n))
         name = callee.name
+        if name == "fabs":
+            a = to_real(self.rvalue(st, argn[0]))
+            return z3.If(a >= 0, a, -a)
         if name in MATH_FUNS:
             a = to_real(self.rvalue(st, argn[0]))
             if name == "sqrt":
@@ -798,7 +815,7 @@ class CExec:
         return self.loop_ordinals[fname].get(loop_node["id"])
 
     def check_pure(self, ret, contract, lab):
-        allowed = set(self.param_blocks) | set(self.cur_P.__dict__)
+        allowed = set(self.param_blocks) | set(self.cur_P.__dict__) | {str(m_) for m_ in (contract.macros or {}).values()}
         seen = set()
 
         def walk(e):
@@ -982,6 +999,13 @@ class CExec:
             return self.exec_stmt(st, then_s)
         if cc is False:
             return self.exec_stmt(st, else_s) if else_s is not None else [(st, "normal", None)]
+        if getattr(self.cur_contract, "prune", False):
+            # solver-based pruning of branches that are infeasible under the path condition (sound: a branch is
+            # dropped only when pc /\ cond is unsatisfiable)
+            if not self.feasible(st, cond):
+                return self.exec_stmt(st, else_s) if else_s is not None else [(st, "normal", None)]
+            if not self.feasible(st, z3.Not(cond)):
+                return self.exec_stmt(st, then_s)
         s1 = st.clone()
         s1.pc.append(cond)
         s2 = st.clone()
@@ -997,6 +1021,39 @@ class CExec:
             m = merge_states([o[0] for o in normal])
             normal = [(m, "normal", None)]
         return normal + other
+
+    def feasible(self, st, cond):
+        """False only if pc /\\ cond is unsatisfiable (first with the linear hypotheses only, which is fast)"""
+        def linear(e, memo={}):
+            k = e.get_id()
+            if k in memo:
+                return memo[k]
+            r = True
+            if z3.is_quantifier(e):
+                r = False
+            elif z3.is_app(e):
+                kk = e.decl().kind()
+                ch = e.children()
+                if kk == z3.Z3_OP_MUL and sum(1 for c in ch if not (z3.is_int_value(c) or z3.is_rational_value(c))) > 1:
+                    r = False
+                elif kk == z3.Z3_OP_DIV and not (z3.is_int_value(ch[1]) or z3.is_rational_value(ch[1])):
+                    r = False
+                else:
+                    r = all(linear(c) for c in ch)
+            memo[k] = r
+            return r
+        hyps = list(st.pc) + list(self.facts)
+        for subset in ([h for h in hyps if linear(h)], hyps):
+            sol = z3.Solver()
+            sol.set("timeout", 1500)
+            for h in subset:
+                sol.add(h)
+            sol.add(cond)
+            if sol.check() == z3.unsat:
+                return False
+            if len(subset) == len(hyps):
+                break
+        return True
 
     def split_here(self):
         sp = self.cur_contract.split
